@@ -23,7 +23,7 @@ pub fn is_lookup(r: &Rec) -> bool {
     is_lookup_op(&r.op)
 }
 pub fn is_lookup_op(o: &Op) -> bool {
-    matches!(o, Op::Get { .. } | Op::Mut { .. } | Op::GetHold { .. } | Op::GetYield { .. })
+    matches!(o, Op::Get { .. } | Op::Mut { .. } | Op::GetHold { .. } | Op::GetYield { .. } | Op::GetMaxCost { .. })
 }
 pub fn any_err(t: &Trace) -> bool {
     t.recs.iter().any(|r| matches!(r.res, Res::Err(_)))
